@@ -490,6 +490,16 @@ impl RawRecords {
             }
             headers.push(header);
         }
+        if self.current_offset > self.file.size() {
+            // Header of the last record is complete, but its meta or data is not: the record is torn
+            // (without data validation nothing else reads past the header)
+            let msg = format!(
+                "last record is truncated: expected end at {}, file size {}",
+                self.current_offset,
+                self.file.size()
+            );
+            return Err(Error::from(ErrorKind::Bincode(msg)).into());
+        }
         if headers.is_empty() {
             Ok(None)
         } else {
